@@ -253,6 +253,9 @@ def run_program(prog, extra_formatters=None, reporters=None, config_hook=None, w
             key = key_of(args[0] if args else None)
             raises = (hname, key) in faults
             log.append(["hook", hname, key, raises])
+            if hname.startswith("after_") and args and hasattr(args[0], "status") and cfg.get("peek_status", True):
+                # what after-hooks usually do first: look at how the element ended (`if scenario.status == "failed": ...`)
+                str(args[0].status)
             if hname == "before_scenario" and cfg.get("continue_via_hook") and cfg.get("continue_after_failed"):
                 # the documented recipe: switch the flag on for this scenario from its before_scenario hook
                 args[0].continue_after_failed_step = True
